@@ -76,13 +76,17 @@ func generate(r *hx.Run, pki *dialx.PKI) []dialx.Case {
 	auths := []string{"NOAUTH", "LOGIN", "CRAM-MD5"}
 	kinds := []string{"dial", "das", "sess"}
 	if thorough {
-		auths = append(auths, "PLAIN", "XOAUTH2", "AUTODISCOVER", "LOGIN-NOENC", "SCRAM-SHA-256")
+		auths = append(auths, "PLAIN", "XOAUTH2", "AUTODISCOVER", "LOGIN-NOENC")
 	}
+	auths = append(auths, "SCRAM-SHA-256")
 	for _, m := range modes {
 		for _, a := range auths {
 			for _, k := range kinds {
 				if r.Expired() {
 					return out
+				}
+				if !thorough && strings.HasPrefix(a, "SCRAM") && k != "dial" {
+					continue
 				}
 				au := a
 				if m.pol == "N" && !m.ssl && a == "LOGIN" {
@@ -115,6 +119,12 @@ func generate(r *hx.Run, pki *dialx.PKI) []dialx.Case {
 					if strings.HasPrefix(au, "SCRAM") && pa >= 0 && p > pa {
 						c.Script[pa] = "535"
 					}
+					out = append(out, c)
+				}
+				// SCRAM: silence after the client's first message (2nd step of the exchange)
+				if strings.HasPrefix(au, "SCRAM") && pa >= 0 {
+					c := base
+					c.Script = append(dialx.OKs(pa), "334e", "stall")
 					out = append(out, c)
 				}
 				// a 421 (service closing channel) that is not followed by a disconnect: the server keeps the connection
